@@ -1669,6 +1669,11 @@ func (sp *ServiceProvider) ValidateLogoutResponseForm(postFormData string) error
 		return retErr
 	}
 
+	if doc.Root() == nil {
+		retErr.PrivateErr = errors.New("invalid xml: no root")
+		return retErr
+	}
+
 	if err := sp.validateSignature(doc.Root()); err != nil {
 		retErr.PrivateErr = err
 		return retErr
@@ -1714,6 +1719,11 @@ func (sp *ServiceProvider) ValidateLogoutResponseRedirect(queryParameterData str
 		return retErr
 	}
 
+	if doc.Root() == nil {
+		retErr.PrivateErr = errors.New("invalid xml: no root")
+		return retErr
+	}
+
 	if err := sp.validateSignature(doc.Root()); err != nil {
 		retErr.PrivateErr = err
 		return retErr
@@ -1737,7 +1747,7 @@ func (sp *ServiceProvider) validateLogoutResponse(resp *LogoutResponse) error {
 	if resp.IssueInstant.Add(MaxIssueDelay).Before(now) {
 		return fmt.Errorf("issueInstant expired at %s", resp.IssueInstant.Add(MaxIssueDelay))
 	}
-	if resp.Issuer.Value != sp.IDPMetadata.EntityID {
+	if resp.Issuer == nil || resp.Issuer.Value != sp.IDPMetadata.EntityID {
 		return fmt.Errorf("issuer does not match the IDP metadata (expected %q)", sp.IDPMetadata.EntityID)
 	}
 	if resp.Status.StatusCode.Value != StatusSuccess {
